@@ -89,6 +89,16 @@ def gen_ops(r, names, sids, size_hint, allow_restart=True):
                     ops.append({"s": o, "op": "raw", "line": f'DELETE "{victim}"'})
                 else:
                     ops.append({"s": o, "op": "raw", "line": f'RENAME "{victim}" "{victim}-r"'})
+        elif x < 0.285 and state[s] and state[s] not in ("inbox",):
+            # an MH user removes the folder this session has selected (`rmf`): the session's next commands are still
+            # answered at once
+            ops.append({"actor": "agent", "op": "rmf", "mbox": state[s]})
+            ops.append({"s": s, "op": "raw", "line": r.choice(("NOOP", "FETCH 1:* FLAGS", "CHECK", "SEARCH ALL"))})
+            if r.random() < 0.5:
+                ops.append({"s": r.choice(sids), "op": "raw", "line": f'CREATE "{state[s]}"'})
+                ops.append({"s": r.choice(sids), "op": "raw", "line": f'SELECT "{state[s]}"'})
+            for k in state:
+                state[k] = None if state[k] == state[s] else state[k]
         elif x < 0.32:
             ops.append({"actor": "agent", "op": "deliver", "mbox": r.choice(names), "count": 1, "unseen": True})
         elif x < 0.62:
